@@ -41,7 +41,8 @@ def uuid_form(rng):
 
 def text(rng, n=None):
     n = rng.choice(WIDTH_LENS) if n is None else n
-    return "".join(rng.choice("abcXYZ09-_/:. ") for _ in range(n))
+    # mostly plain characters; now and then characters that text formats treat specially (quotes, newline, NEL, line separator, non-ASCII)
+    return "".join(rng.choice("abcXYZ09-_/:. ") if rng.random() < 0.93 else rng.choice(["\u00e9", "\u0085", "\u2028", '"', "'", "#", "\n", "\t", "\\", "\u4e2d", "{", "*", "&"]) for _ in range(n))
 
 
 def component_id(rng):
@@ -258,6 +259,14 @@ def systematic(seed=0):
     e = envelope(rng, severed=[], n_auth=0, members=[])
     e["SUIT_Envelope_Tagged"]["suit-manifest"]["suit-common"]["suit-components"] = [[ch, i] for i, ch in enumerate("AMZamz")] + [[ch for ch in "IbQ"]]
     out.append(("single-letter-component-parts", e))
+    # text with characters that YAML / JSON treat specially, in every text position
+    e = envelope(rng, severed=["suit-text"], n_auth=0, members=[])
+    special = "a\u0085b\u2028c \u00e9\u4e2d 'q' \"d\" #h: - {x} *y &z\ttab\nnl\\bs "
+    e["SUIT_Envelope_Tagged"]["suit-text"] = {"en": {"suit-text-manifest-description": special, '["M", 2]': {"suit-text-vendor-name": special}}}
+    e["SUIT_Envelope_Tagged"]["suit-manifest"]["suit-reference-uri"] = special
+    e["SUIT_Envelope_Tagged"]["suit-manifest"]["suit-common"]["suit-components"] = [["M", special]]
+    e["SUIT_Envelope_Tagged"]["suit-integrated-payloads"] = {"#" + special: "00"}
+    out.append(("special-characters-in-text", e))
     # every version comparison name
     e = envelope(rng, severed=[], n_auth=0, members=[])
     e["SUIT_Envelope_Tagged"]["suit-manifest"]["suit-validate"] = [{"suit-directive-override-parameters": {"suit-parameter-version": {R.name_of(c): [1, i]}}} for i, c in enumerate(R.SPACES["version_comparison"])]
